@@ -82,9 +82,17 @@ impl<T: Config> InputQueue<T> {
         let fill_count = delay - old_delay;
         let fill_start = self.last_added_frame + 1;
         let last_input = self.inputs[Self::prev_pos(self.head)];
-        (0..fill_count as i32)
+        let fills: Vec<_> = (0..fill_count as i32)
             .map(|i| PlayerInput::new(fill_start + i, last_input.input))
-            .collect()
+            .collect();
+        // The caller announces these frames to the remote peers right away, so they have to be in
+        // the queue right away as well: if the replication were left to the next add_input(), a
+        // delay decrease in between would make the owner use a real input where the remotes were
+        // told a repeated one, and the frames would count as confirmed before they exist.
+        for fill in &fills {
+            self.add_input_by_frame(*fill, fill.frame);
+        }
+        fills
     }
 
     pub(crate) fn reset_prediction(&mut self) {
